@@ -17,7 +17,8 @@ if os.path.exists(os.path.join(ROOT, ".verif_repo")) and "VERIF_REPO" not in os.
     # development worktrees of /verif are paired with their own worktree of /repo
     REPO = open(os.path.join(ROOT, ".verif_repo")).read().strip()
 SPECS = os.path.join(ROOT, "specs")
-BUILD = os.path.join(ROOT, ".build")
+BUILD = os.environ.get("VERIF_BUILD", os.path.join(ROOT, ".build"))
+OUT = os.environ.get("VERIF_OUT", ROOT)      # evidence/ and replays/ go here (seed tests redirect them)
 SCRATCH_BASE = os.environ.get("VERIF_SCRATCH", "/var/tmp/verif-scratch")
 JAR = "/opt/veriftools/tla/tla2tools.jar:/opt/veriftools/tla/CommunityModules-deps.jar"
 
@@ -360,8 +361,8 @@ def write_evidence(ctx, nviol):
         "coverage": cov, "assumptions": ctx.assumptions,
         "wall_s": round(time.time() - ctx.t0, 2), "violations": nviol,
     }
-    os.makedirs(os.path.join(ROOT, "evidence"), exist_ok=True)
-    p = os.path.join(ROOT, "evidence", ctx.pid + ".json")
+    os.makedirs(os.path.join(OUT, "evidence"), exist_ok=True)
+    p = os.path.join(OUT, "evidence", ctx.pid + ".json")
     with open(p + ".tmp", "w") as f:
         json.dump(ev, f, indent=1, default=str)
     os.replace(p + ".tmp", p)
@@ -383,7 +384,7 @@ def finish(ctx):
     ctx.cov["known_finding_cases"] = sum(len(k) for _, k in known.values())
     rc = 0
     if new:
-        rd = os.path.join(ROOT, "replays", ctx.pid)
+        rd = os.path.join(OUT, "replays", ctx.pid)
         os.makedirs(rd, exist_ok=True)
         seen = set()
         for key, what, art in new:
@@ -431,7 +432,7 @@ def trace_check(ctx, module, cfg, trace_path, what, key_fn=None, selftest=None, 
             lo = line - 1
             while lo > 0 and rows[lo].get("ev") != "reset":
                 lo -= 1
-            keep = os.path.join(ROOT, "replays", ctx.pid)
+            keep = os.path.join(OUT, "replays", ctx.pid)
             os.makedirs(keep, exist_ok=True)
             dst = os.path.join(keep, "%s-trace-%s.ndjson" % (ctx.tier, hashlib.sha1(key.encode()).hexdigest()[:8]))
             if not os.path.exists(dst) or os.path.getmtime(dst) < ctx.t0:
@@ -448,7 +449,7 @@ def trace_check(ctx, module, cfg, trace_path, what, key_fn=None, selftest=None, 
             key = (key_fn(bad, inv) if key_fn else "%s:%s" % (bad.get("ev", "?"), inv or "rejected"))
         art = {"trace": trace_path, "line": hw + 1, "event": bad, "invariant": inv,
                "context": rows[max(0, hw - 15):hw + 1], "tlc_tail": r["out"][-1500:]}
-        keep = os.path.join(ROOT, "replays", ctx.pid)
+        keep = os.path.join(OUT, "replays", ctx.pid)
         os.makedirs(keep, exist_ok=True)
         dst = os.path.join(keep, "%s-trace-%s.ndjson" % (ctx.tier, hashlib.sha1(key.encode()).hexdigest()[:8]))
         lo = hw
